@@ -598,7 +598,13 @@ class Body:
                         c1 = next_sig(toks, ra); c2 = next_sig(toks, c1); c3 = next_sig(toks, c2); c4 = next_sig(toks, c3)
                         if not (toks[c1].t == '::' and toks[c2].t in ('max', 'min') and toks[c3].t == '(' and toks[c4].t == ')'):
                             raise ExtractionBreak('numeric_limits form')
-                        if toks[c2].t != 'max': raise ExtractionBreak('numeric_limits::min unsupported')
+                        if toks[c2].t == 'min':
+                            if inner[0].t == 'decltype': raise ExtractionBreak('numeric_limits<decltype>::min unsupported')
+                            cty, _ = map_type(untok(toks[la + 1:ra]), tm)
+                            out.append(T('id', 'OP2_MIN_' + cty.replace(' ', '_')))
+                            i = c4 + 1
+                            self.fire('R4lim')
+                            continue
                         if inner[0].t == 'decltype':
                             out.append(T('id', 'OP2_UMAX_OF_EXPR'))
                             seen = False
@@ -612,6 +618,29 @@ class Body:
                             out.append(T('id', 'OP2_MAX_' + cty.replace(' ', '_')))
                         i = c4 + 1
                         self.fire('R4lim')
+                        continue
+                    if nm == 'find':
+                        # R14: std::find(X.begin(), X.end(), v) != X.end()   (X a fixed std::array)
+                        lp = next_sig(toks, b); rp = match_fwd(toks, lp)
+                        args = [untok(strip_ws(a_)) for a_ in split_top(toks[lp + 1:rp])]
+                        ne = next_sig(toks, rp)
+                        m0 = re.fullmatch(r'(.+?)\s*\.\s*begin\s*\(\s*\)', args[0]) if len(args) == 3 else None
+                        m1 = re.fullmatch(r'(.+?)\s*\.\s*end\s*\(\s*\)', args[1]) if len(args) == 3 else None
+                        if not (m0 and m1 and m0.group(1) == m1.group(1) and ne is not None and toks[ne].t in ('!=', '==')):
+                            raise ExtractionBreak('R14: unsupported std::find form')
+                        # the comparison operand  X.end()
+                        e1 = next_sig(toks, ne); j = e1; txt = ''
+                        while True:
+                            txt += toks[j].t
+                            if re.fullmatch(r'(.+?)\.end\(\)', txt.replace(' ', '')): break
+                            j = next_sig(toks, j)
+                            if j is None or len(txt) > 200: raise ExtractionBreak('R14: std::find not compared with end()')
+                        if txt.replace(' ', '')[:-6] != m0.group(1).replace(' ', ''):
+                            raise ExtractionBreak('R14: std::find compared with a different container')
+                        neg = '' if toks[ne].t == '!=' else '!'
+                        out.extend(tokenize('%sOP2_ARR_CONTAINS(%s, %s)' % (neg, m0.group(1), args[2])))
+                        i = j + 1
+                        self.fire('R14find')
                         continue
                     if nm in STD_MAP:
                         out.append(T('id', STD_MAP[nm]))
@@ -676,6 +705,19 @@ class Body:
                         continue
             out.append(t)
             i += 1
+        self.toks = out
+
+    # ---- R16: braced temporaries of a known struct type:  Type{ ... }  ->  (Type){ ... }
+    def r_aggregate(self):
+        toks = self.toks
+        names = set(self.ctx.get('struct_names', ()))
+        out = []
+        for i, t in enumerate(toks):
+            if t.k == 'id' and t.t in names:
+                n = next_sig(toks, i); p = prev_sig(toks, i)
+                if n is not None and toks[n].t == '{' and p is not None and (toks[p].t in ('return', '=', '(', ',') ):
+                    out.extend([T('op', '('), t, T('op', ')')]); self.fire('R16'); continue
+            out.append(t)
         self.toks = out
 
     # ---- functional casts  T(expr) / T{expr} for scalar T
@@ -931,6 +973,86 @@ class Body:
                     out.append(T('id', ctx['statics'][t.t])); self.fire('R2static'); continue
             out.append(t)
         self.toks = out
+
+    # ---- R18: == / != on std::array / Tag operands  ->  byte comparison
+    def type_of(self, expr):
+        ctx = self.ctx
+        e = expr.strip()
+        while e.startswith('(') and e.endswith(')'):
+            d = 0; ok = True
+            for k, ch in enumerate(e):
+                if ch == '(': d += 1
+                elif ch == ')':
+                    d -= 1
+                    if d == 0 and k != len(e) - 1: ok = False; break
+            if not ok: break
+            e = e[1:-1].strip()
+        deref = False
+        if e.startswith('*'):
+            e = e[1:].strip(); deref = True
+        parts = re.split(r'\s*(?:\.|->)\s*', e)
+        base = parts[0]
+        base = re.sub(r'\[.*\]$', '', base)
+        ty = None
+        if base == 'self': ty = ctx['cls']
+        elif base in ctx['locals']: ty = ctx['locals'][base]
+        else:
+            for p_ in ctx['params']:
+                if p_['name'] == base: ty = p_['ctype']
+            if ty is None: ty = ctx.get('global_types', {}).get(base)
+        if ty is None: return None
+        ty = ty.replace('const ', '').rstrip('*').strip()
+        for f in parts[1:]:
+            idx = '[' in f
+            f = re.sub(r'\[.*\]$', '', f)
+            fields = ctx.get('all_members', {}).get(ty)
+            if not fields or f not in fields: return None
+            ty = fields[f].replace('const ', '').rstrip('*').strip()
+            if idx and ty.startswith('vec_'): ty = ty[4:]
+        return ty
+
+    def r_eq(self):
+        changed = True
+        while changed:
+            changed = False
+            toks = self.toks
+            for i, t in enumerate(toks):
+                if t.k == 'op' and t.t in ('==', '!=') :
+                    p = prev_sig(toks, i); n = next_sig(toks, i)
+                    if p is None or n is None: continue
+                    # left operand: postfix chain ending at p
+                    ls = p
+                    if toks[p].t in (')', ']'):
+                        ls = match_back(toks, p)
+                        q = prev_sig(toks, ls)
+                        while q is not None and (toks[q].k == 'id' and toks[q].t not in ('return', 'if', 'while') or toks[q].t in ('.', '->')):
+                            ls = q; q = prev_sig(toks, q)
+                    else:
+                        q = prev_sig(toks, ls)
+                        while q is not None and toks[q].t in ('.', '->'):
+                            ls = prev_sig(toks, q)
+                            if toks[ls].t in (')', ']'): ls = match_back(toks, ls)
+                            q = prev_sig(toks, ls)
+                    # right operand: postfix chain starting at n
+                    re_ = n
+                    while True:
+                        q = next_sig(toks, re_)
+                        if q is not None and toks[q].t in ('.', '->'):
+                            re_ = next_sig(toks, q); continue
+                        if q is not None and toks[q].t in ('(', '[') and toks[re_].k == 'id':
+                            re_ = match_fwd(toks, q); continue
+                        break
+                    if toks[n].t == '(':
+                        re_ = match_fwd(toks, n)
+                    ltxt = untok(toks[ls:p + 1]); rtxt = untok(toks[n:re_ + 1])
+                    lt = self.type_of(ltxt); rt = self.type_of(rtxt)
+                    if (lt and (lt.startswith('arr_') or lt == 'Tag')) or (rt and (rt.startswith('arr_') or rt == 'Tag')):
+                        neg = '!' if t.t == '!=' else ''
+                        new = tokenize('%sOP2_BYTES_EQ(%s, %s)' % (neg, ltxt.strip(), rtxt.strip()))
+                        self.toks = toks[:ls] + new + toks[re_ + 1:]
+                        self.fire('R18')
+                        changed = True
+                        break
 
     # ---- calls
     def r_calls(self):
@@ -1289,7 +1411,10 @@ def extract_function(fn, unit, repo, filecache, contracts):
         'params': params, 'cls': cls, 'static': static, 'fn': fn, 'locals': {}, 'refs': set(p['name'] for p in params if p['is_ref']),
         'calls': dict(unit.get('calls', {})), 'scoped': unit.get('scoped', {}), 'throwing_calls': unit.get('throwing_calls', ()),
         'auto_checks': [],
-        'statics': {nm: '%s_%s' % (cls, nm) for nm in unit.get('statics', {}).get(cls, [])} if cls else {},
+        'statics': dict({nm: '%s_%s' % (cls, nm) for nm in unit.get('statics', {}).get(cls, [])} if cls else {}, **{nm.split('::')[-1]: cn for (nm, cn) in unit.get('global_names', []) if cls and nm.startswith(cls + '::')}),
+        'struct_names': list(unit.get('members', {}).keys()),
+        'all_members': unit.get('members', {}),
+        'global_types': dict(unit.get('global_types', {})),
     }
     ctx['calls'].update(fn.get('calls', {}))
     throwers = set()
@@ -1312,10 +1437,12 @@ def extract_function(fn, unit, repo, filecache, contracts):
     body.r_std()
     body.r_scoped()
     body.r_funcast()
+    body.r_aggregate()
     body.r_rangefor()
     body.r_locals()
     body.r_names()
     body.r_calls()
+    body.r_eq()
     body.r_propagate(prop_text)
     lc = contracts['loop'].get(fn['cname'], {})
     body.splice_loops(lc)
@@ -1404,6 +1531,36 @@ def extract_function(fn, unit, repo, filecache, contracts):
     info['lines'] = [pre_text.count('\n') + 1, pre_text.count('\n') + 1 + body_text.count('\n')]
     return sigtxt, ctext, info
 
+def extract_global(text, gdef, typemap):
+    """constant defined at namespace scope:  const T Class::Name = v;   or   const std::array<T,N> Class::Name{ a, b };"""
+    toks = tokenize(text)
+    parts = gdef['qual'].split('::')
+    sidx = [i for i, t in enumerate(toks) if sig(t)]
+    for p in range(len(sidx)):
+        ok = all(toks[sidx[p + 2 * q]].t == parts[q] and (q == len(parts) - 1 or toks[sidx[p + 2 * q + 1]].t == '::') for q in range(len(parts)) if p + 2 * q + 1 < len(sidx))
+        if not ok: continue
+        e = sidx[p + 2 * (len(parts) - 1)]
+        n = next_sig(toks, e)
+        if n is None or toks[n].t not in ('=', '{'): continue
+        pv = prev_sig(toks, sidx[p])
+        if pv is None or toks[pv].t in ('.', '->', '(', ',', 'return', '=', '::'): continue
+        j = n; d = 0
+        while True:
+            x = toks[j]
+            if x.k == 'op':
+                if x.t in OPEN: d += 1
+                elif x.t in CLOSE: d -= 1
+                elif x.t == ';' and d == 0: break
+            j += 1
+        init = untok(toks[n:j]).strip()
+        if init.startswith('='): init = init[1:].strip()
+        cty = gdef['ctype']
+        if cty.startswith('arr_') and init.startswith('{'):
+            init = '{ ' + init + ' }'
+        init = re.sub(r'\b(\w+)::(\w+)\b', r'\1_\2', init)
+        return 'static const %s %s = %s;\n' % (cty, gdef['cname'], init)
+    raise ExtractionBreak('definition of constant %s not found' % gdef['qual'])
+
 def extract_unit(unit, repo, contracts_dir):
     filecache = {}
     contracts = load_contracts(os.path.join(contracts_dir, unit['name'] + '.contracts'))
@@ -1425,6 +1582,10 @@ def extract_unit(unit, repo, contracts_dir):
         unit['members'][opts.get('cname', name)] = {nm: ct for ct, nm, _, _ in fields}
         unit.setdefault('statics', {})[opts.get('cname', name)] = list(extract_struct.last_statics)
         if opts.get('cname'): unit['members'][name] = unit['members'][opts['cname']]
+    for gdef in unit.get('globals', []):
+        parts.append(extract_global(open(os.path.join(repo, gdef['file'])).read(), gdef, typemap))
+        unit.setdefault('global_names', []).append((gdef['qual'], gdef['cname']))
+        unit.setdefault('global_types', {})[gdef['cname']] = gdef['ctype']
     parts.append(contracts['pre'])
     infos = []
     sigs = []
